@@ -119,6 +119,14 @@ def run(case):
         M = min(M, 2.0)   # keeps 1.5 M within the usual range: a larger margin would squeeze the particle into a
         #                   2-px ball that hardly changes under the searched rotations (thorough seed 0: NCC picked a
         #                   neighbouring candidate for such a particle)
+    # the same reasoning for narrow boxes: with a 22-voxel side and M = 3 the blob centres lie within 3.2 px of the box
+    # centre, every searched rotation of such a ball scores >= 0.988 against the unrotated one and the 1e-3 bias of
+    # acryo's mean-padded window normalisation decides between candidates (thorough seed 0, cases 404 and 950: truth
+    # candidate 0.9963, a neighbour 0.9970, exact pose 0.9999). The planted particle has to be distinctive for its
+    # pose to be defined, so the range shrinks until the centres may spread over at least 4 px.
+    while min(shape) / 2 - ((1.5 * M if hand else M) + 4.8) < 4.0 and M > 1.5:
+        M -= 0.5
+        case.count("range_reduced_for_narrow_box")
     Mx = 1.5 * M if hand else M
     blobs = gen.make_blobs(rng, shape, n=5, sigma=(1.3, 1.9), margin=Mx + 4.8)
     tmpl = gen.render_box(shape, blobs)
